@@ -208,8 +208,9 @@ def f_interfaces(text):
                 if t in ("function", "subroutine") and (j == 0 or st[j - 1] != "end"):
                     kw = j
                     break
-            if kw is not None and "bind" in st and not abstract:
+            if kw is not None and (("bind" in st and not abstract) or abstract):
                 pname = st[kw + 1]
+                is_abstract = abstract
                 # argument names
                 args = []
                 if kw + 2 < len(st) and st[kw + 2] == "(":
@@ -220,13 +221,17 @@ def f_interfaces(text):
                         k += 1
                 # binding label
                 label = None
-                b = st.index("bind")
+                b = st.index("bind") if "bind" in st else len(st)
                 for k in range(b, len(st)):
                     if st[k] == "name" and st[k + 1] == "=":
                         label = st[k + 2].strip("\"'")
                         break
                 if label is None:
                     label = pname
+                if is_abstract:
+                    # abstract interfaces describe the callbacks of procedure dummies: no C symbol is bound;
+                    # kept under a key no binding label can have
+                    label = "@abstract:" + pname.lower()
                 result = None
                 if "result" in st:
                     r = st.index("result")
@@ -264,7 +269,8 @@ def f_interfaces(text):
                         for nm, dims in split_names(s2[k:]):
                             decls[nm] = (s2[:k], dims)
                     i += 1
-                procs[label] = dict(name=pname, kind=st[kw], args=args, decls=decls, result=result, conditional=ppdepth > 0)
+                procs[label] = dict(name=pname, kind=st[kw], args=args, decls=decls, result=result, conditional=ppdepth > 0,
+                                    abstract=is_abstract)
         i += 1
     return procs, types
 
@@ -368,6 +374,29 @@ def classify_f(decl, dims, is_result=False):
     if (byval or is_result) and not arr:
         return ("val", kindmap[t], size)
     return ("ptr", kindmap[t], size)
+
+
+def funcptr_params(qt):
+    """'int (*)(void *, int)' -> (return type text, [parameter type texts]) or None."""
+    m = re.match(r"^(.*?)\(\s*\*[^)]*\)\s*\((.*)\)\s*$", qt.strip())
+    if not m:
+        return None
+    ret, inner = m.group(1).strip(), m.group(2).strip()
+    if inner in ("", "void"):
+        return ret, []
+    parts, depth, cur = [], 0, ""
+    for ch in inner:
+        if ch in "(<[":
+            depth += 1
+        elif ch in ")>]":
+            depth -= 1
+        if ch == "," and depth == 0:
+            parts.append(cur.strip())
+            cur = ""
+        else:
+            cur += ch
+    parts.append(cur.strip())
+    return ret, parts
 
 
 def compatible(cf, cc):
